@@ -342,6 +342,23 @@ def list_files(top):
     return out
 
 
+def session_pids(sid):
+    """pids of all live processes whose session id is sid (excluding zombies)"""
+    out = []
+    for n in os.listdir("/proc"):
+        if not n.isdigit():
+            continue
+        try:
+            with open("/proc/%s/stat" % n) as f:
+                st = f.read()
+            rest = st[st.rindex(")") + 2:].split()
+            if int(rest[3]) == sid and rest[0] != "Z":
+                out.append(int(n))
+        except (OSError, ValueError, IndexError):
+            continue
+    return out
+
+
 def run_case(case, keep=False):
     """Run one process-level case.  case keys: entry ('c'|'script'|'stdin'), text, args, files,
     dirs, symlinks, vhfiles, env, envnames, timeout, modes (rel path -> chmod)."""
@@ -395,11 +412,21 @@ def run_case(case, keep=False):
                 pass
             p.kill()
             out, err = p.communicate()
-        # kill stragglers of the session (background helpers)
-        try:
-            os.killpg(p.pid, signal.SIGKILL)
-        except OSError:
-            pass
+        log_at_exit = read_log(d) if case.get("snapshot_log_at_exit") else None
+        # wait for / kill stragglers of the session (background helpers run in their own groups)
+        linger = case.get("linger")
+        if linger is not None or timed_out:
+            t_end = time.time() + (linger or 0)
+            while True:
+                pids = session_pids(p.pid)
+                if not pids or time.time() >= t_end:
+                    break
+                time.sleep(0.01)
+            for q in session_pids(p.pid):
+                try:
+                    os.kill(q, signal.SIGKILL)
+                except OSError:
+                    pass
         res = {
             "status": p.returncode,
             "stdout": out.decode("utf-8", "replace"),
@@ -408,6 +435,8 @@ def run_case(case, keep=False):
             "log": read_log(d),
             "wall": time.time() - t0,
         }
+        if log_at_exit is not None:
+            res["log_at_exit"] = log_at_exit
         if case.get("want_files", True):
             res["files"] = list_files(cwd)
         tp = os.path.join(d, "vh", "trace.ndjson")
@@ -558,6 +587,12 @@ class Report:
         self.assumptions = []
         self.findings = [f for f in load_findings().get("findings", []) if f.get("property") == pid]
         self._seen = set()
+        import glob as _g
+        for old in _g.glob(os.path.join(VERIF, "replays", "%s-%s-*.json" % (pid, tier))):
+            try:
+                os.unlink(old)
+            except OSError:
+                pass
 
     def add_tlc(self, res):
         self.cov["states"] += res.distinct
@@ -635,8 +670,9 @@ def match_finding(f, ctx):
     m = f.get("match")
     if not m:
         return False
-    for k, cond in m.items():
-        v = ctx.get(k)
+    for k, cond0 in m.items():
+      v = ctx.get(k)
+      for cond in (cond0 if isinstance(cond0, list) else [cond0]):
         if isinstance(cond, dict):
             if "in" in cond and v not in cond["in"]:
                 return False
